@@ -64,6 +64,25 @@ impl CodeStatement for Statement {
             + ParallelMoves<Code, Temporary>
             + Utils<Temporary>,
     {
+        // verification hook: record the environment at every statement boundary
+        #[cfg(feature = "verif_hooks")]
+        instructions.push(Backend::comment(format!(
+            "#ctx [{}]",
+            context
+                .bindings
+                .iter()
+                .map(|binding| format!(
+                    "{}:{}",
+                    binding.var.print_to_string(None),
+                    match binding.chi {
+                        axcut::syntax::Chirality::Prd => "prd",
+                        axcut::syntax::Chirality::Cns => "cns",
+                        axcut::syntax::Chirality::Ext => "ext",
+                    }
+                ))
+                .collect::<Vec<String>>()
+                .join(" ")
+        )));
         match self {
             Statement::Substitute(substitute) => {
                 substitute.code_statement::<Backend, _, _, _>(types, context, instructions);
